@@ -22,8 +22,25 @@ package gcrypto
 
 //@ ghost pbits(ref) array[mathint,bool]
 //@ spec pmsg(p iface) string
-//@ spec pkeys(p iface) slice
+//@ spec pkeys(p iface) []PubKey
 //@ spec pkhash(p iface) string
+
+// Signed(key, msg): some signature of msg verifies under key. Verification depends on the key bytes only (T4).
+//@ spec Signed(key iface, msg string) bool
+//@ axiom vf-signed: forall k iface, m string, s string :: {Vf(k, m, s)} Vf(k, m, s) ==> Signed(k, m)
+//@ axiom signed-keybytes: forall k1 iface, k2 iface, m string :: {Signed(k1, m), keybytes(k2)} keybytes(k1) == keybytes(k2) ==> Signed(k1, m) == Signed(k2, m)
+
+// ProofInv: every set bit belongs to a candidate key that signed the proof's message (C05, C01, C13).
+//@ define ProofInv(p) = forall i mathint :: {pbits(p)[i]} pbits(p)[i] ==> 0 <= i && i < len(pkeys(p)) && Signed(pkeys(p)[i], pmsg(p))
+
+//@ iface CommonMessageSignatureProof.AddSignature(p, sig, key)
+//@   requires ProofInv(p)
+//@   ensures ok-means-verified: result == nil ==> Vf(key, pmsg(p), bytes(sig))
+//@   ensures ok-sets-the-keys-bit: result == nil ==> (exists i mathint :: 0 <= i && i < len(pkeys(p)) && keybytes(pkeys(p)[i]) == keybytes(key) &&
+//@       (forall j mathint :: pbits(p)[j] == (old(pbits(p))[j] || j == i)))
+//@   ensures failure-changes-nothing: result != nil ==> pbits(p) == old(pbits(p))
+//@   ensures proof-inv-kept: ProofInv(p)
+//@   modifies pbits(p)
 
 //@ iface CommonMessageSignatureProof.SignatureBitSet(p, dst)
 //@   ensures bsbits(dst) == pbits(p)
@@ -36,3 +53,24 @@ package gcrypto
 
 //@ iface CommonMessageSignatureProof.AsSparse(p)
 //@   ensures result.PubKeyHash == pkhash(p)
+
+// ---- SimpleCommonMessageSignatureProof: representation invariant and coupling with the model fields ----
+
+//@ define SInv(p) = p.bitset != nil && p.sigs != nil && p.keyIdxs != nil &&
+//@     (forall i mathint :: {bsbits(p.bitset)[i]} bsbits(p.bitset)[i] ==> 0 <= i && i < len(p.keys)) &&
+//@     (forall kb string :: {rawdom(p.keyIdxs)[kb]} kb in p.keyIdxs ==> 0 <= p.keyIdxs[kb] && p.keyIdxs[kb] < len(p.keys) && keybytes(p.keys[p.keyIdxs[kb]]) == kb)
+//@ define SCoupling(self, p) = pmsg(self) == bytes(p.msg) && pkeys(self) == p.keys && pkhash(self) == p.keyHash
+
+//@ func SimpleCommonMessageSignatureProof.AddSignature
+//@   property C13 C05 C01
+//@   option implements CommonMessageSignatureProof.AddSignature
+//@   requires SInv(p) && SCoupling(self, p)
+//@   represents pbits(self) == bsbits(p.bitset)
+//@   ensures sinv-kept: SInv(p)
+//@   modifies p.sigs[*], bsbits(p.bitset)
+
+//@ func SimpleCommonMessageSignatureProof.SignatureBitSet
+//@   property C13 C06
+//@   option implements CommonMessageSignatureProof.SignatureBitSet
+//@   requires SInv(p) && SCoupling(self, p)
+//@   represents pbits(self) == bsbits(p.bitset)
